@@ -312,3 +312,53 @@ Theorem C18_parsed_datetime_reserialise : forall b d raw rest,
   forall k rest', parse_datetime (repeat SP k ++ raw ++ rest') = Some (d, raw, rest').
 Proof. exact parsed_datetime_reserialise. Qed.
 Print Assumptions C18_parsed_datetime_reserialise.
+
+(* ============ 7. spellings under a configuration, at any size ============= *)
+(* Model Cmd/FramingLimit.v over Cmd/Framing.v (readline / read_continuation):
+   the server is configured with Config(max_append_len = ...) (APPENDLIMIT). *)
+From PV Require Cmd.CLex Cmd.Framing Cmd.FramingLimit Cmd.FramingLimitProofs.
+Module C18Limit.
+Import PV.Cmd.CLex PV.Cmd.Framing PV.Cmd.FramingLimit PV.Cmd.FramingLimitProofs.
+
+(* For every configuration c (every max_append_len, or none), APPEND or any
+   other command, every size n (also 0, also above every limit), every data of
+   n bytes (any bytes: lines that look like commands or like literal markers),
+   every LF-free head and rest-of-line, every following bytes [next]:
+   - the {n+} spelling  head {n+} CRLF data tail CRLF  is consumed whole by the
+     first readline - nothing of the literal is left to be read as a command -
+     with no continuation request, and the server then reads [next];
+   - the answer class (accepted / refused as too big) is lit_class c app n,
+     the same as for the {n} spelling sent by a client that waits for the
+     continuation request (one request iff accepted), after which the server
+     reads [next] as well. *)
+Theorem C18_literal_limit_spelling : forall c app head n data tail next,
+  no_lf head = true -> tail_ok tail -> N.of_nat (length data) = n ->
+  too_many_digits (dec_of_N n) = false ->
+  serve_command c app [(LPlus, n)] (wire_plus head n data tail next)
+    = Some (lit_class c app n, 0%N, next) /\
+  serve_command c app [(LSync, n)] (wire_sync c app head n data tail next)
+    = Some (lit_class c app n, (if lit_too_big c app n then 0%N else 1%N), next).
+Proof. exact literal_limit_spelling. Qed.
+Print Assumptions C18_literal_limit_spelling.
+
+(* Any command line all of whose literals are {n+}, on ANY stream: whatever the
+   configuration and whatever the sizes, the unread rest is exactly the one of
+   readline (Cmd/Framing.v read_unit 0) and no continuation is requested; the
+   limit decides only the answer. *)
+Theorem C18_litplus_consumed_any_limit : forall c app lits s u r,
+  Forall (fun x : lspell * N => fst x = LPlus) lits ->
+  read_unit 0%N s = Some (u, r) ->
+  serve_command c app lits s
+  = Some ((if any_too_big c app lits then LTooBig else LAccept), 0%N, r).
+Proof. exact litplus_consumed_any_limit. Qed.
+Print Assumptions C18_litplus_consumed_any_limit.
+
+(* the boundary: exactly the limit is accepted, one byte more is refused; the
+   limit is max_append_len for APPEND (whatever the letter case of the command
+   word: [app] is decided on the upper-cased word) and 4096 otherwise *)
+Theorem C18_literal_limit_boundary : forall c app m,
+  lit_limit c app = Some m ->
+  lit_class c app m = LAccept /\ lit_class c app (m + 1) = LTooBig.
+Proof. exact lit_class_boundary. Qed.
+Print Assumptions C18_literal_limit_boundary.
+End C18Limit.
